@@ -122,7 +122,8 @@ def setbits(x, hi, lo, v):
     return x - (bits(x, hi, lo) << lo) + (v << lo)
 
 
-def cpsr_with(c, **kw):
+def cpsr_with(cpsr_value, **kw):
+    c = cpsr_value
     for k, v in kw.items():
         if k == 'it':
             c = setbits(c, 15, 10, bits(v, 7, 2))
